@@ -56,14 +56,15 @@ class Frame:
         self.cls = cls  # class that defines the function (for super())
         self.depth = depth
         self.returns: List[T] = []
+        self.return_paths: List[tuple] = []   # path condition at each `return`
 
 
 class Event:
-    __slots__ = ("kind", "target", "name", "value", "func", "node", "extra")
+    __slots__ = ("kind", "target", "name", "value", "func", "node", "extra", "path")
 
-    def __init__(self, kind, target, name, value, func, node, extra=None):
+    def __init__(self, kind, target, name, value, func, node, extra=None, path=()):
         self.kind, self.target, self.name, self.value = kind, target, name, value
-        self.func, self.node, self.extra = func, node, extra
+        self.func, self.node, self.extra, self.path = func, node, extra, path
 
     def loc(self) -> str:
         return f"{self.func.module.relpath}:{getattr(self.node, 'lineno', 0)}"
@@ -89,6 +90,9 @@ class Evaluator:
         self.ext_calls: List[tuple] = []
         self.instance_attrs: Dict[str, T] = {}  # optional: values of self.<name> established by __init__
         self.bindings: List[tuple] = []       # (callee, param name, argument term, caller frame func, node)
+        self.path: List[tuple] = []           # current path condition: [(test term, polarity, function)] across inlined calls
+        self.exits: List[tuple] = []          # (kind 'return'|'raise', func, node, path snapshot, value)
+        self.callsites: List[tuple] = []      # [callee, {param: argument term}, caller frame func, node, result] for every inlined call
         self.shape_unpack: Dict[int, int] = {}  # id of an `x.shape` term -> number of names it was unpacked into  # ids of param-bound terms entered via combinators
 
     # ------------------------------------------------------------------ helpers
@@ -105,7 +109,7 @@ class Evaluator:
         if key in self._event_keys:
             return
         self._event_keys.add(key)
-        self.events.append(Event(kind, target, name, value, frame.func, node, extra))
+        self.events.append(Event(kind, target, name, value, frame.func, node, extra, tuple(self.path)))
 
     def set_type(self, t: T, ci: Optional[ClassInfo]):
         if ci is not None:
@@ -176,7 +180,14 @@ class Evaluator:
         if k == "update":
             if v.args[1] == name:
                 return v.args[2]
-            # fall through to the base when the base cannot define it differently
+            # a property / method of the record sees the updated value: evaluate it on the update itself
+            ci = self.typeof(v) or self.typeof(v.args[0])
+            f = self.tree.find_method(ci, name) if ci is not None else None
+            if f is not None and name not in self.tree.fields(ci):
+                if f.is_property:
+                    return self.apply_func(f, v, ci, [], {}, frame, None)
+                return self.fn_value(f, v if not f.is_static else None, ci)
+            # a plain field that is not the updated one: the base's
             return self.mk_attr(v.args[0], name, frame)
         if k == "choice" and v.args[0] != "where" and name not in ARRAY_METHODS and not name.startswith("__"):
             alts = tuple(self.mk_attr(a, name, frame) for a in v.args[2])
@@ -334,6 +345,9 @@ class Evaluator:
                 ci = self.tree.classes.get(v.args[0])
                 if ci is not None and self.tree.is_record(ci) == "namedtuple":
                     return self.mk_proj(v, idx.args[0])
+            if v.kind == "call" and idx.args[0] >= 0:
+                # r[i] of a call result is the i-th item of `a, b, .. = r`: one canonical form for both spellings
+                return self.mk_proj(v, idx.args[0])
         if v.kind == "dict" and idx.kind == "const":
             for kk, vv in zip(v.args[0], v.args[1]):
                 if kk is idx:
@@ -659,6 +673,7 @@ class Evaluator:
 
     def e_JoinedStr(self, e, fr):
         parts = []
+        dyn = []
         for v in e.values:
             if isinstance(v, ast.Constant):
                 parts.append(str(v.value))
@@ -667,7 +682,10 @@ class Evaluator:
                 if x.kind == "const" and v.format_spec is None and v.conversion == -1:
                     parts.append(str(x.args[0]))
                 else:
-                    return mk("call", mk("ext", "builtins.format"), (x,), ())
+                    parts.append("{}")
+                    dyn.append(x)
+        if dyn:   # template text and every interpolated value
+            return mk("call", mk("ext", "builtins.format"), (const("".join(parts)),) + tuple(dyn), ())
         return const("".join(parts))
 
     def e_FormattedValue(self, e, fr):
